@@ -353,6 +353,11 @@ func (p *listedPackage) obfuscatedPackageName() string {
 // to write obfuscated source files to. This directory name should be unique per package,
 // even when building many main packages at once, such as in `go test ./...`.
 func (p *listedPackage) obfuscatedSourceDir() string {
+	if !p.ToObfuscate {
+		// We don't obfuscate positions in this package, and with -trimpath
+		// they start at this directory, so keep what a regular build shows.
+		return p.ImportPath
+	}
 	return hashWithPackage(p, p.ImportPath)
 }
 
